@@ -36,11 +36,11 @@ def records(ctx):
     # 2. Spectrum.project on random spectra
     nproj = 120 if ctx.quick else 1200
     for k in range(nproj):
-        ndim = rng.choice([1, 1, 2, 2, 3, 4])
+        ndim = [1, 2, 3, 4, 1, 2][k % 6]               # every dimension count
         hi = {1: 30 if not ctx.quick else 16, 2: 9, 3: 5, 4: 3}[ndim]
         sh = rand_shape(rng, ndim, 1, hi)
-        folded = rng.random() < 0.35
-        fs = rand_spectrum(rng, sh, folded=folded, labels=rand_labels(rng, ndim))
+        folded = (k // 6) % 3 == 1
+        fs = rand_spectrum(rng, sh, folded=folded, labels=rand_labels(rng, ndim), mask_mode=['none', 'corners', 'random', 'single'][(k // 3) % 4])
         ns = [rng.randint(1, s - 1) for s in sh]
         kind = rng.random()
         if kind < 0.1:      # upward projection must be refused
